@@ -40,6 +40,7 @@ const (
 )
 
 func (s *BadgerStore) WriteConsensusSnapshot(snap *common.Snapshot, tx *common.VersionedTransaction, hack *common.Snapshot) error {
+	defer verifAfterWriteConsensusSnapshot(s, snap, tx)
 	txn := s.snapshotsDB.NewTransaction(true)
 	defer txn.Discard()
 
@@ -220,6 +221,7 @@ func (s *BadgerStore) WriteSnapshot(snap *common.SnapshotWithTopologicalOrder, s
 	logger.Debugf("BadgerStore.WriteSnapshot(%v)", snap.Snapshot)
 	s.mutex.Lock()
 	defer s.mutex.Unlock()
+	defer verifAfterWriteSnapshot(s, snap)
 
 	txn := s.snapshotsDB.NewTransaction(true)
 	defer txn.Discard()
